@@ -1111,7 +1111,10 @@ where
             && table == self.table.load(Ordering::SeqCst, guard)
         {
             let sc = self.size_ctl.load(Ordering::SeqCst);
+            // like the Java code's `(sc >>> RESIZE_STAMP_SHIFT) != rs`: only join if `sc` carries
+            // the stamp of _this_ table's resize, not the stamp of a later resize generation.
             if sc >= 0
+                || (sc >> RESIZE_STAMP_SHIFT) << RESIZE_STAMP_SHIFT != rs
                 || sc == rs + MAX_RESIZERS
                 || sc == rs + 1
                 || self.transfer_index.load(Ordering::SeqCst) <= 0
@@ -1177,7 +1180,12 @@ where
             let rs = Self::resize_stamp(n) << RESIZE_STAMP_SHIFT;
             if sc < 0 {
                 // ongoing resize! can we join the resize transfer?
-                if sc == rs + MAX_RESIZERS || sc == rs + 1 {
+                // like the Java code's `(sc >>> RESIZE_STAMP_SHIFT) != rs`: the ongoing resize must
+                // be the resize of the table we read, not one of another generation.
+                if (sc >> RESIZE_STAMP_SHIFT) << RESIZE_STAMP_SHIFT != rs
+                    || sc == rs + MAX_RESIZERS
+                    || sc == rs + 1
+                {
                     break;
                 }
                 let nt = self.next_table.load(Ordering::SeqCst, guard);
